@@ -33,10 +33,24 @@ def main():
         seeds = seeds[:160]
     world = pegrun.peg_world(toks, 1 if quick else 2, 1, seeds, budgets=True, checked=True)
     res = pegrun.run_peg(chk, "c11", world, shapes=False)
+    # long inputs that fail early (few steps, many bytes), deep but linear nesting (many steps, no exponential blow-up): these are
+    # outside the model run (too long for TLC); the budget relation is real against real anyway
+    special = [list("== ") + ["a"] * 3000, list(") ") + list("x == 1 and ") * 200, list("a == 1 ") + [")"] * 1500, ["<B>"] + ["z"] * 2500,
+               list("not ") * 120 + list("a == 1"), list("not ") * 300 + list("a == 1"), list("a == 1 and ") * 150 + list("b == 2"),
+               list("any a as x { ") * 40 + list("x == 1") + list(" }") * 40]
+    special = pegrun.cheap(special, 2000000, wd)
+    with open(os.path.join(wd, "special.ndjson"), "w") as fh:
+        for sp in special:
+            fh.write(json.dumps({"inp": sp, "obs": {"acc": "?"}, "cnt": 0, "errs": 0, "bud": {"real": "only"}, "seed": 0, "rt": True}) + "\n")
+    vlib.harness(["parse", "-cases", os.path.join(wd, "special.ndjson"), "-out", os.path.join(wd, "special.json"), "-shapes=false"])
+    sres = json.load(open(os.path.join(wd, "special.json")))
+    vlib.log("c11: %d long / deep inputs outside the model: %d budgeted parses, %d budget problems" % (sres["inputs"], sres["budgetruns"], len(sres.get("budget") or [])))
+    res["budget"] += sres.get("budget") or []
+    res["budgetruns"] += sres["budgetruns"]
+    for m in res["budget"]:
+        chk.violation({"input": m["input"][:200], "what": m["what"], "expected": m["spec"], "impl": m["impl"]})
     chk.cov["evaluations"] = res["inputs"] + res["budgetruns"]
     chk.cov["distinct_nontrivial"] = res["budgetruns"]
-    for m in res["budget"]:
-        chk.violation({"input": m["input"], "what": m["what"], "expected": m["spec"], "impl": m["impl"]})
     # creation-level: the option reaches the parser, and only a non-zero one
     rows = json.loads(vlib.harness(["nest"]).stdout)
     for r in rows:
